@@ -283,7 +283,7 @@ def correspondence(ctx):
                 ctx.notes.append(f"time budget: stopped after {i} of {len(cases)} cases")
                 break
             gl.run_attributed(ctx, case, lambda c, k: run_cases(c, [k], n_orders))
-        ship = [c06.shipped_case(i, with_suite=True) for i in ((2, 0, 9) if not thorough else (0, 2, 4, 6, 7, 9, 10))]
+        ship = [c06.shipped_case(i, with_suite=True) for i in ((2, 0, 9, 11) if not thorough else (0, 2, 4, 6, 7, 9, 10, 11, 12))]
         for sc in ship:
             if ctx.remaining(budget + 60) < 0:
                 ctx.notes.append("time budget: shipped-suite cases cut short")
